@@ -17,8 +17,10 @@
 (***************************************************************************)
 EXTENDS PathMatch
 
-Unreserved == {"f", "o", "b", "a", "r", "~", "q", "u", "x"}
+Unreserved == {"f", "o", "b", "a", "r", "~", "q", "u", "x", "4", "1"}
 IsUnreserved(o) == o.c \in Unreserved
+(* sub-delimiters that are sent as they are and keep their meaning ("+" is not a blank in a path) *)
+RawOnly == {"+"}
 IsSlash(o) == o.c = "/"
 
 KeepOctet(o) == IF IsSlash(o) THEN "%2F" ELSE o.c
@@ -39,16 +41,18 @@ OnPath(p) == [i \in 1..Len(p) |-> On(p[i])]
 HasEncSlash(p) == \E i \in 1..Len(p) : \E j \in 1..Len(p[i]) : IsSlash(p[i][j])
 
 (* normal form of a spelling: unreserved octets raw, hex upper case *)
-NormSeg(seg) == [j \in 1..Len(seg) |-> [c |-> seg[j].c, enc |-> ~IsUnreserved(seg[j]), up |-> TRUE]]
+NormSeg(seg) == [j \in 1..Len(seg) |->
+                   [c |-> seg[j].c, enc |-> ~IsUnreserved(seg[j]) /\ seg[j].c \notin RawOnly, up |-> TRUE]]
 Norm(p) == [i \in 1..Len(p) |-> NormSeg(p[i])]
 
-WellFormed(p) == \A i \in 1..Len(p) : \A j \in 1..Len(p[i]) : IsUnreserved(p[i][j]) \/ p[i][j].enc
+WellFormed(p) == \A i \in 1..Len(p) : \A j \in 1..Len(p[i]) :
+                    IsUnreserved(p[i][j]) \/ p[i][j].enc \/ p[i][j].c \in RawOnly
 
 (* ---------------------------------------------------------------------- *)
 (* Expected behaviour for a request given the rules, the slash setting of  *)
 (* the matched rule and whether a default rule exists.                      *)
 (* outcome: [rule, reject, caps]                                            *)
-EncText(c) == CASE c = "[" -> "%5B" [] c = "/" -> "%2F" [] c = " " -> "%20" [] OTHER -> c
+EncText(c) == CASE c = "[" -> "%5B" [] c = "/" -> "%2F" [] c = " " -> "%20" [] c = "%" -> "%25" [] OTHER -> c
 
 RECURSIVE CanonSegFrom(_, _, _)
 CanonSegFrom(seg, i, on) ==
